@@ -26,8 +26,7 @@ UNITS += [
   for l, w in ((1, 0), (2, 0))
 ]
 for u in UNITS:
-    if u.name != "bitrate_addblock_l1_w0_inv":
-        u.tier = "thorough"
+    u.tier = "thorough"   # incl. the _inv subset: > 900 s on the check machine (vp check 4), too slow for the every-change tier
 UNITS += [
   Unit("bitrate_init", ["C14"], "lib/bitrate.c", enforce="vorbis_bitrate_init", harness="h_bitrate_small.c", entry="h_bitrate_init",
        defines=["VERIF_UNIT_BRINIT"], reach=2, timeout=600,
